@@ -80,7 +80,8 @@ pub fn generate(group: &str, r: &mut Rng, n: usize) -> Option<Vec<Value>> {
                 let o = *r.pick(&["L", "D", "C", "Q"]);
                 let v = *r.pick(&["C", "B", "M", "I", "G"]);
                 let c = *r.pick(&["N", "B", "L", "D", "C", "Q"]);
-                let m = if c == "N" || c == "B" { 0 } else { 1 + r.below(4) as usize };
+                // (a code with general constraints may still declare 0 of them)
+                let m = if c == "N" || c == "B" { 0 } else if r.chance(1, 8) { 0 } else { 1 + r.below(4) as usize };
                 out.push(qplib_model(r, o, v, c, nv, m));
             }
         }
